@@ -387,6 +387,12 @@ def molecule_plan(chk: Check):
     add("df", "H4", df=True, chol_cut=1e-5)
     add("custom-basis", "H4", basis_coeff="lowdin", chol_cut=1e-5)
     add("custom-integrals", "H4", integrals="custom", basis_coeff="mo", chol_cut=1e-6)
+    add("rhf-frozen", "LiH", basis="6-31g", nfrozen=1, basis_coeff="core+rot", chol_cut=1e-4, walker_type="uhf")
+    add("rhf", "H4ring", chol_cut=1e-7, trial="uhf", walker_type="uhf")
+    add("rohf", "H4", spin=2, mf="rohf", trial="uhf", walker_type="rhf", chol_cut=1e-5)
+    add("uhf", "OH", spin=1, mf="uhf", trial="uhf", walker_type="uhf", chol_cut=1e-6)
+    add("df", "LiH", df=True, nfrozen=1, chol_cut=1e-5)
+    add("custom-basis", "OH", spin=1, mf="rohf", trial="uhf", walker_type="uhf", basis_coeff="lowdin", chol_cut=1e-5)
     if chk.tier == "quick":
         return S
     cuts = [1e-4, 1e-5, 1e-6, 1e-7]
@@ -478,10 +484,11 @@ def option_traces(chk: Check, tid0):
 def lattice_plan(chk: Check):
     rng = np.random.default_rng([chk.seed, 161616])
     L = [("chain", [4], (2, 2), "rhf", 2), ("chain", [4], (2, 1), "rohf", 1), ("grid", [2, 2], (3, 1), "uhf", 1),
-         ("chain", [3], (2, 1), "uhf", 1), ("grid", [2, 2], (2, 2), "uhf", 1)]
+         ("chain", [3], (2, 1), "uhf", 1), ("grid", [2, 2], (2, 2), "uhf", 1), ("chain", [5], (3, 2), "rohf", 1),
+         ("tri", [2, 2], (1, 1), "rhf", 2)]
     if chk.tier == "thorough":
         L += [("chain", [2], (1, 1), "rhf", 2), ("chain", [3], (1, 1), "rhf", 2), ("chain", [5], (2, 2), "rhf", 2),
-              ("chain", [5], (3, 2), "rohf", 2), ("chain", [5], (3, 1), "uhf", 2), ("tri", [2, 2], (2, 1), "rohf", 2),
+              ("chain", [5], (3, 2), "uhf", 2), ("chain", [5], (3, 1), "uhf", 2), ("tri", [2, 2], (2, 1), "rohf", 2),
               ("tri", [2, 2], (2, 2), "uhf", 2), ("grid", [3, 2], (2, 2), "rhf", 2), ("grid", [3, 2], (3, 2), "uhf", 2),
               ("chain", [6], (3, 3), "rhf", 2), ("chain", [6], (2, 1), "rohf", 2), ("chain", [4], (3, 3), "uhf", 2),
               ("chain", [4], (1, 0), "rohf", 1)]
